@@ -5,9 +5,12 @@
 (* BloomFilter / HashIndex.                                                *)
 (*   bloom:  inserted = set of keys; Query(k) must answer TRUE for every   *)
 (*           k in inserted (no false negative), whatever the filter size   *)
-(*   hash :  stored = set of tuples; Lookup(key) through get, get_with_    *)
-(*           bloom and probe returns exactly { t in stored : Key(t) = key } *)
-(*           and might_contain_key is TRUE whenever that set is non-empty  *)
+(*   hash :  stored = the tuples in insertion order, duplicates kept (the  *)
+(*           index is a multiset: a tuple inserted twice and removed once  *)
+(*           is still there once); Lookup(key) through get, get_with_bloom *)
+(*           and probe returns exactly the stored tuples with that key,    *)
+(*           each as often as it is stored; might_contain_key is TRUE      *)
+(*           whenever there is one; remove answers whether it removed      *)
 (***************************************************************************)
 EXTENDS Integers, Sequences, FiniteSets, TLC, Json, IOUtils
 
@@ -15,6 +18,12 @@ Rec == ndJsonDeserialize(IOEnv.TRACE)
 VARIABLES l, inserted, stored, cols, alive
 vars == <<l, inserted, stored, cols, alive>>
 ToSetI(s) == { s[i] : i \in DOMAIN s }
+\* sequences as multisets
+Count(s, x) == Cardinality({ i \in DOMAIN s : s[i] = x })
+SameBag(a, b) == \A x \in ToSetI(a) \cup ToSetI(b) : Count(a, x) = Count(b, x)
+RemoveOne(s, x) == IF x \notin ToSetI(s) THEN s
+                   ELSE LET i == CHOOSE i \in DOMAIN s : s[i] = x /\ \A j \in 1..(i - 1) : s[j] # x
+                        IN [j \in 1..(Len(s) - 1) |-> IF j < i THEN s[j] ELSE s[j + 1]]
 Key(t) == [i \in DOMAIN cols |-> t[cols[i]]]
 Out(x) == PrintT(ToJson(x))
 
@@ -29,20 +38,21 @@ Next ==
        [] R.ev = "bloom_query"  -> /\ UNCHANGED <<inserted, stored, cols, alive>>
                                    /\ Out(<<"VERDICT", "C36", R.case, l, R.ok /\ (R.key \in inserted => R.res),
                                             [ev |-> R.ev, member |-> R.key \in inserted, res |-> R.res]>>)
-       [] R.ev = "hi_new"       -> /\ stored' = {} /\ cols' = R.cols /\ UNCHANGED <<inserted, alive>>
-       [] R.ev = "hi_insert"    -> /\ stored' = stored \cup { R.t } /\ UNCHANGED <<inserted, cols, alive>>
-       [] R.ev = "hi_remove"    -> /\ stored' = stored \ { R.t } /\ UNCHANGED <<inserted, cols, alive>>
-                                   /\ Out(<<"VERDICT", "C36", R.case, l, R.res = (R.t \in stored), [ev |-> R.ev]>>)
-       [] R.ev = "hi_build"     -> /\ stored' = ToSetI(R.ts) /\ UNCHANGED <<inserted, cols, alive>>
+       [] R.ev = "hi_new"       -> /\ stored' = <<>> /\ cols' = R.cols /\ UNCHANGED <<inserted, alive>>
+       [] R.ev = "hi_insert"    -> /\ stored' = Append(stored, R.t) /\ UNCHANGED <<inserted, cols, alive>>
+       [] R.ev = "hi_remove"    -> /\ stored' = RemoveOne(stored, R.t) /\ UNCHANGED <<inserted, cols, alive>>
+                                   /\ Out(<<"VERDICT", "C36", R.case, l, R.res = (R.t \in ToSetI(stored)),
+                                            [ev |-> R.ev, res |-> R.res, present |-> R.t \in ToSetI(stored)]>>)       [] R.ev = "hi_build"     -> /\ stored' = R.ts /\ UNCHANGED <<inserted, cols, alive>>
        [] R.ev = "hi_lookup"    -> /\ UNCHANGED <<inserted, stored, cols, alive>>
-                                   /\ LET want == { t \in stored : Key(t) = R.key } IN
+                                   /\ LET want == SelectSeq(stored, LAMBDA t : Key(t) = R.key) IN
                                       Out(<<"VERDICT", "C36", R.case, l,
-                                            /\ ToSetI(R.get) = want /\ ToSetI(R.get_bloom) = want /\ ToSetI(R.probe) = want
-                                            /\ (want # {} => R.might),
-                                            [ev |-> R.ev, want |-> Cardinality(want), get |-> Len(R.get),
+                                            /\ SameBag(R.get, want) /\ SameBag(R.get_bloom, want) /\ SameBag(R.probe, want)
+                                            /\ (want # <<>> => R.might)
+                                            /\ R.len = Len(stored),
+                                            [ev |-> R.ev, want |-> Len(want), stored |-> Len(stored), len |-> R.len, get |-> Len(R.get),
                                              bloom |-> Len(R.get_bloom), probe |-> Len(R.probe), might |-> R.might]>>)
   /\ l' = l + 1
-Init == l = 1 /\ inserted = {} /\ stored = {} /\ cols = <<1>> /\ alive = TRUE
+Init == l = 1 /\ inserted = {} /\ stored = <<>> /\ cols = <<1>> /\ alive = TRUE
 Spec == Init /\ [][Next]_vars
 Consumed == TLCGet("stats").diameter = Len(Rec) + 1 \/ PrintT(<<"UNCONSUMED", TLCGet("stats").diameter, Len(Rec)>>)
 =============================================================================
